@@ -28,3 +28,6 @@ const void *g_jwk_tracked_bin;		/* decoding of the tracked JWK member's text (se
 const char *g_push_name_of_tracked;	/* OSSL parameter name that value was pushed under (NULL: not pushed) */
 unsigned g_push_count; const char *g_pkey_type_name; int g_fromdata_selection; size_t g_ossl_bits; int g_pem_private;
 const char *g_ec_point_curve; const void *g_ec_point_x, *g_ec_point_y;
+
+/* jwt_parse unit: record of the jwt_parse_head / jwt_parse_payload calls */
+unsigned g_ph_calls, g_pp_calls; int g_ph_ret, g_pp_ret; const char *g_ph_arg, *g_pp_arg;
